@@ -779,7 +779,9 @@ func (t *Tree) Compile(file string, args []string, out io.Writer) (err error) {
 				lower := []rune(element.String())[0]
 				element = element.Next()
 				upper := []rune(element.String())[0]
-				s.AddRange(lower, upper)
+				if lower <= upper {
+					s.AddRange(lower, upper)
+				} /* else: a range written backwards ([z-a]) matches nothing */
 			case TypeAlternate:
 				consumes = true
 				properties := make([]struct {
@@ -796,7 +798,8 @@ func (t *Tree) Compile(file string, args []string, out io.Writer) (err error) {
 					c, properties[i].s = optimizeAlternates(element)
 					// An alternative that can succeed without consuming can succeed
 					// on any character, whatever its first-character set says.
-					properties[i].nullable = !c
+					/* ... and one without any first character cannot be dispatched on */
+					properties[i].nullable = !c || properties[i].s.Len() == 0
 					consumes = consumes && c
 					s = s.Union(properties[i].s)
 				}
